@@ -3,6 +3,7 @@ package c02
 import (
 	"encoding/binary"
 	"fmt"
+	"os"
 	"sort"
 	"sync/atomic"
 	"testing"
@@ -105,7 +106,7 @@ func TestIdempotentExactlyOnceInOrder(t *testing.T) {
 
 func check(rt *rapid.T, o *wl.ProdObs, where map[int64][]loc) {
 	fail := func(format string, a ...any) {
-		rt.Fatalf("%s\nplan: %s\nhistory tail:\n%s", fmt.Sprintf(format, a...), o.Plan.Brief(), o.Log.Dump(50))
+		rt.Fatalf("%s\nplan: %s\nhistory tail:\n%s", fmt.Sprintf(format, a...), o.Plan.Brief(), o.Log.Dump(dumpN()))
 	}
 	type placed struct {
 		rs  *wl.RecState
@@ -152,4 +153,11 @@ func check(rt *rapid.T, o *wl.ProdObs, where map[int64][]loc) {
 			}
 		}
 	}
+}
+
+func dumpN() int {
+	if os.Getenv("VERIF_DEBUG") != "" {
+		return 1000
+	}
+	return 50
 }
